@@ -168,6 +168,14 @@ impl Pattern {
     /// starts with the root directory and another one does not.
     pub fn alternatives(&self) -> Option<Vec<Pattern>> {
         let src = self.src.as_str();
+        // An inline flag, e.g. `(?i)`, applies to everything that follows it up to the end of
+        // its group, across the alternatives. Taken apart, only one of them would keep it.
+        lazy_static::lazy_static! {
+            static ref INLINE_FLAGS: regex::Regex = regex::Regex::new(r"\(\?[a-zA-Z-]+\)").unwrap();
+        }
+        if INLINE_FLAGS.is_match(src) {
+            return None;
+        }
         let (bars, _) = Self::alternation_bars(src, 0);
         let (inner, rest) = if !bars.is_empty() {
             (src, "")
